@@ -90,7 +90,8 @@ class Matmul(ArrayOpSpec):
                            z3.And(tz(c1[0]) == tz(oc[0]), tz(c1[1]) == tz(oc[1]), tz(c2[0]) == tz(oc[1]), tz(c2[1]) == tz(oc[2])), kind="ensures")
             else:
                 ctx.oblige(f"{tag}.contr[out{j}]:task-(i,q,j)-multiplies-x1-block-(i,q)-with-x2-block-(q,j)", False, kind="ensures")
-            ctx.oblige(f"{tag}.contr[out{j}]:k-interval-is-non-empty-and-inside-the-axis", z3.And(klo >= 0, klo < khi, khi <= tz(K)), kind="ensures")
+            ctx.oblige(f"{tag}.contr[out{j}]:k-interval-is-inside-the-axis-and-non-empty-unless-the-axis-is",
+                       z3.And(klo >= 0, klo <= khi, khi <= tz(K), z3.Implies(tz(K) > 0, klo < khi)), kind="ensures")
             # k blocks tile [0, K): block 0 starts at 0, consecutive k blocks are adjacent, the last ends at K — stated
             # through the intervals of the generic task and its successor along the k-block axis
             ctx.oblige(f"{tag}.contr[out{j}]:first-k-block-starts-at-0", z3.Implies(tz(oc[1]) == 0, klo == 0), kind="ensures")
